@@ -21,7 +21,7 @@ def judge(rec, opts):
     got, _ = replay.render_record(rec)
     f = replay.compare(rec, got)
     if f is not None and f["clause"] in ("output", "outcome", "error-class"):
-        out.append((f"scopes:{f['clause']}:{constructs(rec)}", f))
+        out.append((f"{rec['focus']}:{f['clause']}:{constructs(rec)}", f))
     # scope-stack discipline on a caller-owned context
     from liquid2 import DictLoader, RenderContext
     templates = {replay.conc(n): replay.conc(t) for n, t in rec["templates"]}
@@ -53,6 +53,12 @@ def check(tier: str) -> int:
                         "TLC, Json/IOUtils modules, CPython"]
     top = 3 if tier == "thorough" else 2
     r = gen.run_focus(chk, "MC_Scopes", "scopes", max_top=top, invariants=("Total", "RenderIsolated"), timeout=6000)
+    if r is not None:
+        try:
+            gen.replay_file(chk, r.workdir / "out.ndjson", "harness.c07", "judge")
+        finally:
+            r.cleanup()
+    r = gen.run_focus(chk, "MC_Lambda", "lambda", max_top=4, timeout=6000)
     if r is not None:
         try:
             gen.replay_file(chk, r.workdir / "out.ndjson", "harness.c07", "judge")
